@@ -884,7 +884,7 @@ pub fn main(args: &[String]) -> i32 {
     let mut out = Out::new();
     if has_flag(args, "--scenarios") {
         for s in read_scenarios() {
-            run_scenario(&mut out, &s);
+            guarded(&mut out, |o| run_scenario(o, &s));
         }
     } else {
         let n = arg_usize(args, "--random", 100);
@@ -892,7 +892,7 @@ pub fn main(args: &[String]) -> i32 {
         let mut r = rng(21 + o.focus.bytes().map(|b| b as u64).sum::<u64>());
         for _ in 0..n {
             let s = gen_scenario(&mut r, &o);
-            run_scenario(&mut out, &s);
+            guarded(&mut out, |out| run_scenario(out, &s));
         }
     }
     out.flush();
